@@ -62,11 +62,17 @@ class Mqtt:
         """Register to notify for mqtt messages of given topic to be sent to queue."""
 
         if topic not in cls.notify:
-            cls.notify[topic] = set()
             _LOGGER.debug("mqtt.notify_add(%s) -> adding mqtt subscription", topic)
-            cls.notify_remove[topic] = await mqtt.async_subscribe(
+            # (the entry is made once the subscription exists: a refused one leaves nothing behind)
+            remove = await mqtt.async_subscribe(
                 cls.hass, topic, cls.mqtt_message_handler_maker(topic), encoding=encoding or "utf-8", qos=0
             )
+            if topic in cls.notify:
+                # another subscriber got there while we were waiting: one subscription is enough
+                remove()
+            else:
+                cls.notify_remove[topic] = remove
+                cls.notify[topic] = set()
         cls.notify[topic].add(queue)
 
     @classmethod
